@@ -339,7 +339,47 @@ def run(ctx):
     rule_signature(ctx)
     rule_gate(ctx)
     rule_successors(ctx)
+    rule_error_attribution(ctx)
     c07.rule_fresh_clone(ctx)
     ctx.assume("`import = inlining` as a behavioural equivalence is NOT decided; scoping at the boundary is C07; the file system "
                "behaviour of Path::canonicalize is trusted")
     return {}
+
+
+def rule_error_attribution(ctx):
+    rule = "error-attribution"
+    facts = ctx.facts
+    ctx.rule(rule, "an edge that cannot be followed is reported for the import site where it was written: load_import rewraps as ITS OWN "
+                   "import error only the provider's `Read` failure (the file this site names could not be read); every other error of "
+                   "the provider's load — an ImportPath / ImportInput of a deeper site, a cycle — passes through unchanged. Rewrapping "
+                   "those re-attributes a file missing deep in the graph at every hop, and the report names an importer and a path that "
+                   "exist")
+    fn = next((k for k in facts.bodies() if k.endswith("::load_import") and "SourceGraphLoader" in k and "{closure" not in k), None)
+    if fn is None:
+        ctx.anchor_lost(rule, "SourceGraphLoader::load_import not found")
+        return
+    h = ctx.need_hir(rule, fn)
+    found = False
+    for c in H.walk(h["body"]):
+        if not (H.kind(c) == "MethodCall" and c["name"] == "map_err" and any(H.kind(y) in ("Call", "MethodCall") and (H.callee(y) or "").endswith("::load_canonical")
+                                                                               for y in H.walk(c["recv"]))):
+            continue
+        for m in H.walk(c["args"][0]):
+            if H.kind(m) != "Match":
+                continue
+            found = True
+            rewrapped = set()
+            passthrough = False
+            for a in m["arms"]:
+                vs = {v.split("::")[-1] for v in H.pat_variants(a["pat"]) if "SourceLoadError::" in v}
+                calls_wrap = any(H.kind(y) == "Call" and H.kind(y.get("f") or {}) == "Path" and (y["f"].get("res") or {}).get("name") == "import_error"
+                                 for y in H.walk(a["body"]))
+                if vs and calls_wrap:
+                    rewrapped |= vs
+                if not vs and H.kind(H.peel(a["body"])) == "Path":
+                    passthrough = True
+            ctx.check(rewrapped == {"Read"} and passthrough, rule, "load_import:only-read-rewrapped", "load_import rewraps %s of the provider's load as "
+                      "its own import error (pass-through arm: %s); only `Read` is this site's failure" % (sorted(rewrapped), passthrough),
+                      [facts.bodies()[fn]["loc"][0], m.get("ln")], detail={"rewrapped": sorted(rewrapped)})
+    if not found:
+        ctx.anchor_lost(rule, "no map_err over load_canonical(..) in load_import")
